@@ -136,10 +136,16 @@ def coq_case(k, ts, ep, ts2):
 
 
 # ---------------------------------------------------------------- oracle
+MAXDIFF = [0.0]
+
+
 def close(a, b):
     if a == b or (a != a and b != b):
         return True
-    return abs(a - b) <= TOL * max(abs(a), abs(b), 1e-300)
+    rel = abs(a - b) / max(abs(a), abs(b), 1e-300)
+    if rel <= TOL:
+        MAXDIFF[0] = max(MAXDIFF[0], rel)      # measured, reported in the evidence notes
+    return rel <= TOL
 
 
 def md_close(a, b):
@@ -213,7 +219,28 @@ def oracle(ctx, rng, ts, mu, rescale):
                         bad = "node %d metadata %r vs %r" % (u, out_f.node(u).metadata, out2.node(u).metadata)
                         break
         if bad:
-            ctx.oracle_fail("rephase:output-differs", "re-phasing %d input singletons changed the output: %s" % (moved, bad), rp2)
+            # K9 (DESIGN.md section 9): at a site where several singletons of one individual end on the
+            # same node, which of them is the parent / gets which spread time follows the input row
+            # order.  Recognised narrowly: node times and node metadata agree, and per site the
+            # multisets of (node, time, metadata) agree -- only the assignment to derived states differs.
+            def per_site(d):
+                out = {}
+                for key, v in d.items():
+                    out.setdefault(v[0], []).append((v[1], v[2], v[3]))
+                return {k: sorted(x, key=lambda t: (t[0], t[1])) for k, x in out.items()}
+            p1, p2 = per_site(after_f), per_site(a2)
+            same_multiset = (
+                all(close(float(x), float(y)) for x, y in zip(out_f.nodes_time, out2.nodes_time))
+                and all(md_close(out_f.node(u).metadata, out2.node(u).metadata) for u in range(ts.num_nodes))
+                and p1.keys() == p2.keys()
+                and all(len(p1[k]) == len(p2[k]) and all(a[0] == b[0] and close(a[1], b[1]) and md_close(a[2], b[2])
+                                                          for a, b in zip(p1[k], p2[k])) for k in p1))
+            if same_multiset:
+                ctx.oracle_fail("rephase:row-order-within-site",
+                                "outputs agree as per-site multisets of (node, time, metadata); the assignment to "
+                                "derived states differs: %s" % bad, rp2)
+            else:
+                ctx.oracle_fail("rephase:output-differs", "re-phasing %d input singletons changed the output: %s" % (moved, bad), rp2)
             break
     return nsing
 
@@ -223,7 +250,7 @@ def run(ctx, model_ok=True):
     import warnings
     logging.disable(logging.WARNING)
     warnings.simplefilter("ignore")
-    n = ctx.n(45, 500)
+    n = ctx.n(36, 400)
     items = []
     hung = False
     for _ in range(n):
@@ -259,6 +286,7 @@ def run(ctx, model_ok=True):
                 ep_phased["out_nodes"] != [int(x) for x in ts.mutations_node]:
             ctx.oracle_fail("phased:blocks-exist", "singletons_phased=True produced blocks or moved mutations", rp)
         items.append((ts, ep, ts2, rp))
+    ctx.notes["max_relative_difference_between_rephased_outputs_within_tolerance"] = MAXDIFF[0]
     if hung or not model_ok or not items:
         return
     texts = [coq_case(k, ts, ep, ts2) for k, (ts, ep, ts2, rp) in enumerate(items)]
